@@ -592,6 +592,31 @@ pub fn parse_j(text: &str) -> J {
     conv(&serde_json::from_str(text).expect("parse_j: fixed text"))
 }
 
+/// an object with two quoted member names and its twin with ONE member whose name is the text that Display prints
+/// between the first and the last quote of the former (Display does not escape names): two different shapes with one
+/// Display text whenever something compares renderings instead of shapes
+pub fn display_twins() -> Vec<(JsonShape, JsonShape)> {
+    let n = JsonShape::Number { optional: false };
+    let st = JsonShape::String { optional: false };
+    let mut out = Vec::new();
+    for (k1, k2, v1, v2) in [("x!", "y!", n.clone(), n.clone()), ("p q", "r s", n.clone(), st.clone()), ("a b", "c d", arr(n.clone(), false), n.clone())] {
+        for o in [false, true] {
+            let a = obj(vec![(k1, v1.clone()), (k2, v2.clone())], o);
+            let text = a.to_string();
+            if let (Some(i), Some(j)) = (text.find('"'), text.rfind("\": ")) {
+                if i + 1 < j {
+                    let key = text[i + 1..j].to_string();
+                    let b = obj(vec![(key.as_str(), v2.clone())], o);
+                    out.push((a.clone(), b.clone()));
+                    out.push((arr(a.clone(), false), arr(b.clone(), false)));
+                    out.push((tup(vec![a.clone(), n.clone()], false), tup(vec![b, n.clone()], false)));
+                }
+            }
+        }
+    }
+    out
+}
+
 /// an object against a union none of whose object variants fits it WHOLE although every member fits some variant:
 /// members split over two variants, crossed over two variants, with either flag on the object and the union
 pub fn split_unions() -> Vec<(JsonShape, JsonShape)> {
